@@ -256,6 +256,76 @@ def end_to_end(run, n):
                     return
 
 
+TYPES_NS = 'xmlns="http://opcfoundation.org/UA/2008/02/Types.xsd"'
+
+
+def _var(i, name, dt, tag, text):
+    return ('<UAVariable NodeId="ns=1;i=%d" BrowseName="1:%s" DataType="%s"><DisplayName>%s</DisplayName><References>'
+            '<Reference ReferenceType="i=40">i=63</Reference><Reference ReferenceType="i=47" IsForward="false">ns=1;i=5000</Reference>'
+            '</References><Value><%s %s>%s</%s></Value></UAVariable>' % (i, name, dt, name, tag, TYPES_NS, text, tag))
+
+
+def unusual_tables(run):
+    """graphs whose DataType table is not the plain one: a base node defined twice ahead of the DataType definitions (row labels and ids
+    differ from there on: the class of the repaired D-C16d), and a further, unused DataType whose DisplayName repeats a built-in one.
+    Correctly typed variables must be written; one wrongly typed variable must be named, alone."""
+    import io as _io
+    from opcua_tools import UAGraph
+    from opcua_tools.validator.exceptions import ValidationError
+    base = minibase.base_xml()
+    line35 = [l for l in base.splitlines() if 'NodeId="i=35"' in l][0]
+    line31 = [l for l in base.splitlines() if 'NodeId="i=31"' in l][0]
+    bases = {"plain": base, "i=35 twice": base.replace(line35, line35 + "\n" + line35, 1),
+             "i=31 three times": base.replace(line31, "\n".join([line31] * 3), 1)}
+    extra_dt = {"none": "",
+                "String again": '<UADataType NodeId="ns=1;i=3100" BrowseName="1:String"><DisplayName>String</DisplayName><References><Reference ReferenceType="i=45" IsForward="false">i=12</Reference></References></UADataType>',
+                "Int32 and Double again": '<UADataType NodeId="ns=1;i=3101" BrowseName="1:Int32"><DisplayName>Int32</DisplayName><References><Reference ReferenceType="i=45" IsForward="false">i=6</Reference></References></UADataType>'
+                                          '<UADataType NodeId="ns=1;i=3102" BrowseName="1:MyDouble"><DisplayName>Double</DisplayName><References><Reference ReferenceType="i=45" IsForward="false">i=11</Reference></References></UADataType>'}
+    uri = "http://c16.example/plant"
+    head = ('<?xml version="1.0" encoding="utf-8"?>\n<UANodeSet xmlns="http://opcfoundation.org/UA/2011/03/UANodeSet.xsd">\n<NamespaceUris><Uri>%s</Uri></NamespaceUris>\n'
+            '<Models><Model ModelUri="%s" Version="1.0.0" PublicationDate="2020-01-01T00:00:00Z"><RequiredModel ModelUri="http://opcfoundation.org/UA/" Version="1.04" PublicationDate="2019-05-01T00:00:00Z"/></Model></Models>\n'
+            '<UAObject NodeId="ns=1;i=5000" BrowseName="1:Plant"><DisplayName>Plant</DisplayName><References><Reference ReferenceType="i=40">i=58</Reference>'
+            '<Reference ReferenceType="i=35" IsForward="false">i=85</Reference></References></UAObject>\n' % (uri, uri))
+    good = [_var(5001, "Count", "i=6", "Int32", "5"), _var(5002, "Label", "i=12", "String", "abc"),
+            _var(5003, "Ratio", "i=11", "Double", "0.5"), _var(5004, "Flag", "i=1", "Boolean", "true")]
+    bad = _var(5005, "BadOne", "i=6", "String", "not a number")
+    bad2 = _var(5006, "BadTwo", "i=12", "Int32", "7")
+    with minibase.Scratch() as sc:
+        k = 0
+        for bname, btext in bases.items():
+            for ename, etext in extra_dt.items():
+                for offenders in ([], [bad], [bad2], [bad, bad2]):
+                    k += 1
+                    doc = head + etext + "\n" + "\n".join(good + offenders) + "\n</UANodeSet>\n"
+                    d = sc.sub("u%d" % k)
+                    open(os.path.join(d, "Opc.Ua.NodeSet2.xml"), "w", encoding="utf-8").write(btext)
+                    open(os.path.join(d, "plant.xml"), "w", encoding="utf-8").write(doc)
+                    names = sorted(("BadOne" if o is bad else "BadTwo") for o in offenders)
+                    case = {"unusual_tables": {"base": bname, "extra_datatypes": ename, "offenders": names}}
+                    run.case(case, tag="e2e:tables:" + ("rejected" if offenders else "accepted"))
+                    run.compared += 1
+                    buf = _io.StringIO()
+                    try:
+                        G = UAGraph.from_path(d)
+                        G.write_nodeset(buf, uri, last_modified=W.FIXED, publication_date=W.FIXED)
+                        res = "written"
+                    except ValidationError as e:
+                        res = "ValidationError:" + str(e)
+                    except Exception as e:  # noqa: BLE001
+                        res = type(e).__name__ + ":" + str(e)[:200]
+                    if offenders:
+                        named = sorted(n for n in ("BadOne", "BadTwo", "Count", "Label", "Ratio", "Flag") if "'%s'" % n in res)
+                        ok = res.startswith("ValidationError") and named == names and buf.getvalue() == ""
+                    else:
+                        ok = res == "written" and buf.getvalue() != ""
+                    if not ok:
+                        run.violation({"files": {"Opc.Ua.NodeSet2.xml": btext, "plant.xml": doc}, "uri": uri, "own_base": True},
+                                      {"what": "write_nodeset validation on a graph with an unusual DataType table", "impl": res[:400], "case": case,
+                                       "expected": ("ValidationError naming exactly %s, nothing written" % names) if offenders else "document written"})
+                        return
+
+
+
 def explore(run):
     thorough = run.tier == "thorough"
     matrix(run)
@@ -264,6 +334,9 @@ def explore(run):
         return
     mixed(run, 5000 if thorough else 200)
     flush(run)
+    if run.full():
+        return
+    unusual_tables(run)
     if run.full():
         return
     end_to_end(run, 400 if thorough else 20)
